@@ -33,6 +33,9 @@ struct Tot {
     states: std::collections::HashSet<u64>,
     full_queue_seen: bool,
     stop_observed_runs: u64,
+    /// executions in which the any-errors flag was compared with what was reported / of these, nothing reported
+    flag_judged: u64,
+    flag_judged_clean: u64,
 }
 
 fn explore_stop(rep: &mut Reporter, tot: &mut Tot, scn: &Scn, cap_override: Option<usize>, bound: usize, label: &str, expected_output: Option<&[u8]>) {
@@ -74,6 +77,22 @@ fn explore_stop_x(rep: &mut Reporter, tot: &mut Tot, scn: &Scn, cap_override: Op
                     problems.push(("stop:output-not-whole-packets".into(), format!("filtered output of {} bytes is not a sequence of whole packets ({:?})", out.len(), end), prefix.to_vec()));
                 } else if out.len() > exp.len() || exp[..out.len()] != out[..] {
                     problems.push(("stop:output-not-a-prefix".into(), format!("filtered output ({} bytes) is not a prefix of the expected filtered stream ({} bytes)", out.len(), exp.len()), prefix.to_vec()));
+                }
+            }
+        }
+        // the any-errors flag (it becomes the exit status) follows what was reported, however the run was stopped
+        if r.outcome == Outcome::Completed && o.finished {
+            if let Some(st) = o.stats_file.as_deref().and_then(|b| serde_json::from_slice::<serde_json::Value>(b).ok()) {
+                let es = &st["error_stats"];
+                let total = es["total_errors"].as_u64().unwrap_or(0);
+                let fatal = !es["fatal_error"].is_null();
+                let reported = total > 0 || fatal || o.process_result.is_some();
+                if o.any_errors != reported {
+                    problems.push((format!("stop:any-errors-flag-{}", if o.any_errors { "set-without-a-reported-error" } else { "not-set-although-errors-were-reported" }), format!("any-errors flag = {}, the statistics list {total} errors, fatal error present = {fatal}, processing result {:?}", o.any_errors, o.process_result), prefix.to_vec()));
+                }
+                tot.flag_judged += 1;
+                if !reported {
+                    tot.flag_judged_clean += 1;
                 }
             }
         }
@@ -264,12 +283,12 @@ fn real_signals(rep: &mut Reporter) -> serde_json::Value {
     let mut cases: Vec<SCase> = Vec::new();
     for (sname, sig) in [("SIGINT", libc::SIGINT), ("SIGTERM", libc::SIGTERM), ("SIGHUP", libc::SIGHUP)] {
         for n in [1usize, 2] {
-            cases.push(SCase { label: format!("no earlier stop, {n} x {sname}"), args: s(&["check", "all", "its"]), input: clean.clone(), marker: None, delay: 700, signals: vec![sig; n] });
-            cases.push(SCase { label: format!("error cap reached, then {n} x {sname}"), args: s(&["check", "sanity", "-e", "1"]), input: faulty.clone(), marker: None, delay: 700, signals: vec![sig; n] });
-            cases.push(SCase { label: format!("fatal framing error, then {n} x {sname}"), args: s(&["check", "all", "its"]), input: fatal.clone(), marker: None, delay: 700, signals: vec![sig; n] });
+            cases.push(SCase { label: format!("no earlier stop, {n} x {sname}"), args: s(&["check", "all", "its", "-E", "7"]), input: clean.clone(), marker: None, delay: 700, signals: vec![sig; n] });
+            cases.push(SCase { label: format!("error cap reached, then {n} x {sname}"), args: s(&["check", "sanity", "-e", "1", "-E", "7"]), input: faulty.clone(), marker: None, delay: 700, signals: vec![sig; n] });
+            cases.push(SCase { label: format!("fatal framing error, then {n} x {sname}"), args: s(&["check", "all", "its", "-E", "7"]), input: fatal.clone(), marker: None, delay: 700, signals: vec![sig; n] });
         }
         for d in [0u64, 2, 5, 20] {
-            cases.push(SCase { label: format!("{sname} {d} ms after start, view rdh"), args: s(&["view", "rdh"]), input: clean.clone(), marker: None, delay: d, signals: vec![sig] });
+            cases.push(SCase { label: format!("{sname} {d} ms after start, view rdh"), args: s(&["view", "rdh", "-E", "7"]), input: clean.clone(), marker: None, delay: d, signals: vec![sig] });
         }
     }
     let res = par_map(&cases, |_, c| signal_run(&c.args, &c.input, c.marker, c.delay, &c.signals));
@@ -288,6 +307,13 @@ fn real_signals(rep: &mut Reporter) -> serde_json::Value {
             bad = Some(("killed", format!("terminated by signal {k}")));
         } else if c.signals.len() == 1 && o.stderr.contains("ungraceful") {
             bad = Some(("forced-exit-after-one-signal", format!("a single stop signal forced the exit (status {:?}): worker threads not joined, no orderly end", o.status)));
+        }
+        // one signal ends the run in an orderly way: the exit status is the configured one iff an error was reported
+        if bad.is_none() && c.signals.len() == 1 && o.killed_by.is_none() {
+            let want = if c.label.starts_with("no earlier stop") || c.label.contains("view rdh") { 0 } else { 7 };
+            if o.status != Some(want) {
+                bad = Some(("exit-status-after-one-signal", format!("exit status {:?}, expected {want} (the configured any-errors status is 7; the input {})", o.status, if want == 0 { "is clean" } else { "carries errors" })));
+            }
         }
         if c.signals.len() == 2 && o.stderr.contains("ungraceful") {
             forced += 1;
@@ -314,7 +340,7 @@ struct Job {
 
 pub fn run(tier: Tier, _replay: Option<String>, part: Option<usize>) -> i32 {
     let mut rep = Reporter::new("C17", tier, "model_checking");
-    let mut tot = Tot { executions: 0, steps: 0, states: Default::default(), full_queue_seen: false, stop_observed_runs: 0 };
+    let mut tot = Tot { executions: 0, steps: 0, states: Default::default(), full_queue_seen: false, stop_observed_runs: 0, flag_judged: 0, flag_judged_clean: 0 };
     let mut jobs: Vec<Job> = Vec::new();
     // ---- 3. conformance first: it is what the rest rests on
     let depth = if tier.is_thorough() { 6 } else { 5 };
@@ -384,7 +410,7 @@ pub fn run(tier: Tier, _replay: Option<String>, part: Option<usize>) -> i32 {
     if let Some(k) = part {
         let j = &jobs[k];
         explore_stop_x(&mut rep, &mut tot, &j.scn, j.cap_override, j.bound, &j.label, j.expected_output.as_deref(), j.must_stop);
-        crate::parts::write_part(&rep.export_part(json!({"executions": tot.executions, "steps": tot.steps, "states": tot.states.iter().collect::<Vec<_>>(), "full_queue_seen": tot.full_queue_seen, "stop_observed_runs": tot.stop_observed_runs})));
+        crate::parts::write_part(&rep.export_part(json!({"executions": tot.executions, "steps": tot.steps, "states": tot.states.iter().collect::<Vec<_>>(), "full_queue_seen": tot.full_queue_seen, "stop_observed_runs": tot.stop_observed_runs, "flag_judged": tot.flag_judged, "flag_judged_clean": tot.flag_judged_clean})));
         let _ = std::fs::remove_dir_all(scratch());
         return 0;
     }
@@ -398,6 +424,8 @@ pub fn run(tier: Tier, _replay: Option<String>, part: Option<usize>) -> i32 {
                 tot.states.extend(p["states"].as_array().map(|a| a.iter().filter_map(|x| x.as_u64()).collect::<Vec<_>>()).unwrap_or_default());
                 tot.full_queue_seen |= p["full_queue_seen"].as_bool().unwrap_or(false);
                 tot.stop_observed_runs += p["stop_observed_runs"].as_u64().unwrap_or(0);
+                tot.flag_judged += p["flag_judged"].as_u64().unwrap_or(0);
+                tot.flag_judged_clean += p["flag_judged_clean"].as_u64().unwrap_or(0);
             }
         }
     }
@@ -408,6 +436,11 @@ pub fn run(tier: Tier, _replay: Option<String>, part: Option<usize>) -> i32 {
     if tot.stop_observed_runs == 0 {
         rep.machinery_error("the stop flag was never set in any execution (vacuous)".into());
     }
+    if tot.flag_judged_clean == 0 || tot.flag_judged == tot.flag_judged_clean {
+        rep.machinery_error(format!("the any-errors flag was judged in {} executions, {} of them without a reported error (vacuous)", tot.flag_judged, tot.flag_judged_clean));
+    }
+    rep.cov("any_errors_flag_judged_executions", json!(tot.flag_judged));
+    rep.cov("any_errors_flag_judged_with_nothing_reported", json!(tot.flag_judged_clean));
     // ---- 4. TLA+ model of the shutdown protocol: TLC over all interleavings + trace conformance with the code
     let mut tla_json = Vec::new();
     let mut tla_traces = 0u64;
